@@ -438,6 +438,16 @@ pub proof fn axiom_split(s: Seq<char>, sep: Seq<char>)
 {
 }
 
+// str::split on a one-character separator, piece by piece (assumed; conformance-tested with axiom_split)
+#[verifier::external_body]
+pub proof fn axiom_split_step(a: Seq<char>, sep: Seq<char>, b: Seq<char>)
+    requires sep.len() == 1, !has_sub(a, sep),
+    ensures
+        split_spec(a + sep + b, sep) == seq![a] + split_spec(b, sep),
+        split_spec(a, sep) == seq![a],
+{
+}
+
 pub open spec fn has_sub(s: Seq<char>, p: Seq<char>) -> bool {
     exists|k: int| 0 <= k && k + p.len() <= s.len() && #[trigger] s.subrange(k, k + p.len()) == p
 }
